@@ -150,6 +150,26 @@ example : ∃ (C η : ℝ → ℂ), Continuous C ∧ (∀ t, HasDerivAt η (corr
   convert this using 1
   simp
 
+/-! ### (1'') the variable of the frequency quadrature
+
+`correlation` and `eta_function` hand the quadrature either the closure `integrand` over
+`(0, cutoff)` and `(cutoff, ∞)`, or — after the substitution `x = ω/cutoff`, which makes the
+quadrature independent of the unit of frequency — `cutoff·integrand(cutoff·x)` over `(0, 1)` and
+`(1, ∞)`.  Either way the integrals are those of the closure (for every closure, every cutoff,
+every truncation `R` of the tail). -/
+
+theorem quadrature_variable (f : ℂ → ℂ) (c R : ℝ) :
+    ((∫ x in (0:ℝ)..(corr_upper (c : ℂ)).re, corr_scaledIntegrand (c : ℂ) f (x : ℂ))
+        = ∫ w in (0:ℝ)..c, f (w : ℂ))
+    ∧ ((∫ x in (corr_upper (c : ℂ)).re..(corr_upper (c : ℂ)).re * R,
+          corr_scaledIntegrand (c : ℂ) f (x : ℂ)) = ∫ w in c..c * R, f (w : ℂ))
+    ∧ ((∫ x in (0:ℝ)..(eta_upper (c : ℂ)).re, eta_scaledIntegrand (c : ℂ) f (x : ℂ))
+        = ∫ w in (0:ℝ)..c, f (w : ℂ))
+    ∧ ((∫ x in (eta_upper (c : ℂ)).re..(eta_upper (c : ℂ)).re * R,
+          eta_scaledIntegrand (c : ℂ) f (x : ℂ)) = ∫ w in c..c * R, f (w : ℂ)) :=
+  ⟨(corr_scaled_integral f c R).1, (corr_scaled_integral f c R).2,
+   (eta_scaled_integral f c R).1, (eta_scaled_integral f c R).2⟩
+
 /-! ### (3) `C(−τ) = conj C(τ)` -/
 
 /-- pointwise in ω, for the closure `integrand` of `CustomSD.correlation` with its branch
